@@ -237,6 +237,10 @@ def novel_blocks(tier, seed):
     r11 = [c for c in circ_cases('R11', 'ENST11C', E.Cfg(exception=None, min_length=5), with_snv=True)
            if len(c.circs[0].frags) == 1 and c.circs[0].frags[0][1] - c.circs[0].frags[0][0] == 100]
     out.append(('CIRC/R11/exon2/snv', r11, dict(deviations=2, circle_length=100)))
+    # a 32-nt circle with an ORF that runs round it: on later passes the ORF reads the positions just 5' of its own start
+    r12 = [c for c in circ_cases('R12', 'ENST12C', CFG_NONE, with_snv=True)
+           if len(c.circs[0].frags) == 1 and c.circs[0].frags[0][1] - c.circs[0].frags[0][0] == 32]
+    out.append(('CIRC/R12/exon2/snv', r12, dict(deviations=2, circle_length=32)))
     if not q:
         out.append(('CIRC/R7/ENST0B1/snv', circ_cases('R7', 'ENST0B1', CFG_NONE, with_snv=True), dict(deviations=2)))
     recs = as_records('R8', 'ENST08')
